@@ -26,7 +26,7 @@ DRIVER_MODULES = ["PsutilModel.Model.C13Gen", "PsutilModel.Spec.C13"]
 NEEDS_EXT = True
 TRUSTED = [
     "C13 kernel-side renderers (Spec/C13.lean renderStatm/renderSmaps/renderRollup): transcriptions of fs/proc/task_mmu.c and array.c; validated on every run by re-rendering the harness process's own /proc/self/smaps, smaps_rollup header and statm byte-for-byte",
-    "C13 regex model: the three regexes of _parse_smaps are modelled as line-anchored extraction (a `\\s+` that would run across a newline is not modelled); Python's `re`, `int()` (only plain digit strings are modelled; '+1', '1_0' are outside), bytes.split/strip and str.strip/endswith on ASCII + non-space code points are trusted",
+    "C13 regex model: Python's `re` is modelled by Model/C13Re.lean — a backtracking matcher + findall for the fragment the three patterns of _parse_smaps use (literals, `\\s` `\\d` `.` under greedy `*`/`+`, one group `(\\d+)`; bytes patterns, ASCII classes), compiled in Lean from the pattern TEXT the translator extracts; trusted: that this matcher is sre's semantics on the fragment (exercised on every run by raw families on which findall over the whole text and the line-anchored reading DIFFER: a `\\s+` running over a newline, several colons, `Pss:9`); that findall equals the line-anchored reading on every rendered file is a theorem (C13_regex_line_anchored); `int()` (only plain digit strings are modelled; '+1', '1_0' are outside), bytes.split/strip and str.endswith are trusted",
     "C13 path_exists_strict is a parameter of the model (present / missing / PermissionError); the harness patches it with a table (plus a few cases on real files)",
     "C13 floats: memory_percent is compared with the exact rational 100*value/total at relative tolerance 1e-12",
     "C13 /proc/meminfo renderer (Spec/C13.lean renderMeminfo = the smaps key-line shape `show_val_kb`): validated on every run by re-rendering the live /proc/meminfo byte-for-byte; only `.total` of virtual_memory() is modelled here (the other svmem fields are C06's)",
@@ -34,16 +34,16 @@ TRUSTED = [
 ]
 ASSUMPTIONS = [
     "every mapping of one smaps file prints the same key list (UniformKeys; true of every kernel, and checked against the live /proc/self/smaps on every run) — get_blocks' dict is created once and never cleared; what the code does on every other file is a theorem (C13_maps_nonuniform_exact), and C13_maps_right_iff_no_stale_key says exactly on which files it is right",
-    "file names do not begin with a blank and contain no newline (the kernel escapes it); non-ASCII Unicode spaces (U+0085, U+00A0, …) at the ends of a name are outside the claimed domain",
+    "file names do not begin with a blank and contain no newline (the kernel escapes it); names ending in blanks or in non-ASCII Unicode spaces (U+0085, U+00A0, U+2003, U+3000, …) are inside the domain (generated; the code no longer strips the decoded name)",
     "the VmFlags line lists at least one mnemonic; a key line has a number (a bare `Key:` line raises IndexError in psutil; no kernel prints one)",
-    "the kernel's roll-up sums kB values (the real kernel keeps sub-kB precision for Pss)",
+    "a roll-up rendered FROM the mappings is their field-wise kB sum (C13_rollup_agrees); the real kernel keeps sub-kB precision and prints keys of its own (Pss_Anon/Pss_File/Pss_Shmem): covered by the roll-up-record families (ANY roll-up content, C13_rollup_record / C13_full_info_from_rollup; the live /proc/self/smaps_rollup is re-rendered byte-for-byte on every run) and characterised by C13_rollup_subkb_bound",
     "/proc/meminfo prints every label once and always prints MemTotal and MemFree; /proc/zoneinfo is absent from the fake procfs (virtual_memory's MemAvailable fall-back then cannot raise)",
     "inside a oneshot() block the answer is that of the first read of a block-cached source (front-end memory_info; _read_smaps_file): the harness overwrites statm / smaps only after such a read succeeded, and never smaps_rollup or (for memory_full_info) statm, which are re-read by design",
 ]
 MANIFEST = {
-    "level_text": "Machine-checked Lean 4 proofs over a model of _pslinux.Process.memory_info / _parse_smaps_rollup / _parse_smaps / memory_full_info / memory_maps, the front-end grouping fold, memory_percent together with the module cache _TOTAL_PHYMEM, and the /proc/meminfo loop of virtual_memory(), against kernel-side renderers of statm, smaps, smaps_rollup and meminfo: C13_statm (round trip for every statm record and page size), C13_maps_roundtrip (memory_maps(renderSmaps ms) = map specRow ms for EVERY list of well-formed mappings: any number, repeated and adversarial paths with spaces/colons/' (deleted)'/key-like names, anonymous mappings, optional lines, values of any size), C13_maps_nonuniform_exact + C13_maps_right_iff_no_stale_key (what the never-cleared dict of get_blocks does when mappings print different key lists, and exactly which files it gets right; C13_uniform_keys_never_stale: all kernel-reachable ones), C13_full_info_sums, C13_rollup_agrees, C13_rollup_fallback, C13_grouped_conservation (finite-map equality with field-wise sums, one row per distinct path), C13_percent, C13_meminfo_total, C13_percent_end_to_end (from the texts of statm, smaps and meminfo, every pfullmem field), C13_percent_last_read (every history of meminfo rewrites / virtual_memory() / memory_percent(): 100*field / the total psutil last read), C13_percent_cached_total, C13_percent_history, C13_percent_constant_total (MemTotal the same at every read: every answer is 100*field/(1024*MemTotal), and the last-read and current-total readings coincide), C13_bad_memtype_ValueError, C13_empty_smaps, plus proved counterexamples (file name ending in a blank for the code that strips the path; non-uniform key sets; the cache characterised beyond the property: after MemTotal changed the answer stays relative to the total last read — C13_percent_stale_total_counterexample, by design, not a defect). Tied to the code by ~30 translator facts feeding the proof obligations cfg_good / pcfg_good / cfg_dict_once and by a differential run of the real front-end methods over a fake procfs rendered by the Lean renderers, both roll-up variants, every method reached in 8 call modes (plain, fresh object, oneshot(), warm oneshot() with the world changed after the first read, as_dict(), process_iter()'s object, second call, call after the files held other content).",
-    "level_note": "Trusted: Lean kernel + {propext, Classical.choice, Quot.sound}; the translator; the correspondence harness; the kernel renderers (smaps, statm, meminfo validated against the live kernel each run, incl. the uniform-key-list hypothesis); Python's re/int/split/strip; the regexes modelled line-anchored; well-formed names are hypotheses; the property does not quantify over a MemTotal that changes between calls: with the module cache memory_percent is specified relative to the total last read (C13_percent_last_read); that this is not the current total after a change is documented as a characterisation, not a defect.",
-    "technique": "Lean 4 round-trip and conservation proofs (induction over mapping lists, lines and call histories) + translator-fed proof obligations + differential correspondence over rendered procfs content in several call modes",
+    "level_text": "Machine-checked Lean 4 proofs over a model of _pslinux.Process.memory_info / _parse_smaps_rollup / _parse_smaps / memory_full_info / memory_maps, the front-end grouping fold, memory_percent together with the module cache _TOTAL_PHYMEM, and the /proc/meminfo loop of virtual_memory(), against kernel-side renderers of statm, smaps, smaps_rollup and meminfo: C13_statm (round trip for every statm record and page size), C13_maps_roundtrip (memory_maps(renderSmaps ms) = map specRow ms for EVERY list of well-formed mappings: any number, repeated and adversarial paths with spaces/colons/' (deleted)'/key-like names, anonymous mappings, optional lines, values of any size), C13_maps_nonuniform_exact + C13_maps_right_iff_no_stale_key (what the never-cleared dict of get_blocks does when mappings print different key lists, and exactly which files it gets right; C13_uniform_keys_never_stale: all kernel-reachable ones), C13_full_info_sums, C13_rollup_agrees, C13_rollup_record + C13_full_info_from_rollup (EVERY roll-up content as a record of its own: any key lines, keys only the roll-up prints, any values), C13_rollup_subkb_bound (kernel-side characterisation: the roll-up's Pss exceeds the per-mapping sum by less than 1 kB per mapping), C13_rollup_fallback (+ C13_rollup_wrapped_counterexample: false for a _parse_smaps_rollup carrying @wrap_exceptions; obligation cfg_good.rollupWrapped, decorator_facts pins the decorator table), C13_regex_line_anchored (_parse_smaps as written — three re.findall over the WHOLE text, modelled by a backtracking regex matcher compiled from the pattern texts — equals the line-anchored reading of its patterns on EVERY rendered file; C13_findall_is_line_anchored is the general criterion for any text, C13_regex_crosses_newline the proved witness where they differ off the kernel's format), C13_grouped_conservation (finite-map equality with field-wise sums, one row per distinct path), C13_percent, C13_meminfo_total, C13_percent_end_to_end (from the texts of statm, smaps and meminfo, every pfullmem field), C13_percent_last_read (every history of meminfo rewrites / virtual_memory() / memory_percent(): 100*field / the total psutil last read), C13_percent_cached_total, C13_percent_history, C13_percent_constant_total (MemTotal the same at every read: every answer is 100*field/(1024*MemTotal), and the last-read and current-total readings coincide), C13_bad_memtype_ValueError, C13_empty_smaps, plus proved counterexamples (file name ending in a blank for the code that strips the path; non-uniform key sets; the cache characterised beyond the property: after MemTotal changed the answer stays relative to the total last read — C13_percent_stale_total_counterexample, by design, not a defect). Tied to the code by ~40 translator facts (incl. the three pattern texts compiled by the Lean regex model and the decorator table of the anchored methods) feeding the proof obligations cfg_good / pcfg_good / cfg_dict_once / decorator_facts and by a differential run of the real front-end methods over a fake procfs rendered by the Lean renderers, both roll-up variants, every method reached in 8 call modes (plain, fresh object, oneshot(), warm oneshot() with the world changed after the first read, as_dict(), process_iter()'s object, second call, call after the files held other content).",
+    "level_note": "Trusted: Lean kernel + {propext, Classical.choice, Quot.sound}; the translator; the correspondence harness; the kernel renderers (smaps, statm, meminfo validated against the live kernel each run, incl. the uniform-key-list hypothesis); Python's int/split/strip; Python's re modelled by a small backtracking matcher for the fragment the three patterns use (its agreement with sre is exercised by the correspondence, not proved); well-formed names are hypotheses; the property does not quantify over a MemTotal that changes between calls: with the module cache memory_percent is specified relative to the total last read (C13_percent_last_read); that this is not the current total after a change is documented as a characterisation, not a defect.",
+    "technique": "Lean 4 round-trip and conservation proofs (induction over mapping lists, lines, regex backtracking and call histories) + translator-fed proof obligations + differential correspondence over rendered procfs content in several call modes",
     "design_ref": "DESIGN.md §5 C13",
 }
 
@@ -639,6 +639,8 @@ def _nums(o, names):
     v = o["value"]
     if list(getattr(type(v), "_fields", ())) != names:
         return {"wrong-fields": list(getattr(type(v), "_fields", ()))}
+    if not all(isinstance(x, int) and not isinstance(x, bool) for x in v):
+        return {"wrong-types": [type(x).__name__ for x in v]}
     return {"ok": [int(x) for x in v]}
 
 
@@ -649,6 +651,9 @@ def _rows(o, names, nstr):
     for t in o["value"]:
         if list(getattr(type(t), "_fields", ())) != names:
             return {"wrong-fields": list(getattr(type(t), "_fields", ()))}
+        # never crash on a wrongly typed field (a number where the path should be, …): it is an observable
+        if not all(isinstance(x, str) for x in t[:nstr]) or not all(isinstance(x, int) and not isinstance(x, bool) for x in t[nstr:]):
+            return {"wrong-types": [type(x).__name__ for x in t]}
         rows.append([os.fsencode(x).hex() for x in t[:nstr]] + [[int(x) for x in t[nstr:]]])
     return {"ok": rows}
 
@@ -882,6 +887,9 @@ def corpus(impl):
         case([m(b"/x", kv=[("Rss", 0), ("Pss", 1)]), m(b"/y", kv=[("Pss", 2), ("Swap", 3)], lo=0x500000),
               m(b"/z", kv=[("Rss", 9), ("Swap", 0)], lo=0x600000), m(None, kv=[("Rss", 0)], lo=0x700000)], fam="nonuniform_ok"),
     ]
+    # one-key files: every `data.get(key, 0)` default of the row is exercised (each key absent from the whole file)
+    out.append(case([m(b"/only-swap", kv=[("Swap", 3)]), m(None, kv=[("Swap", 0)], lo=0x500000)]))
+    out.append(case([m(b"/only-rss", kv=[("Rss", 5)], flags=None)], mode="enoent"))
     def rk(*kv):
         return [[k.encode().hex(), v, True] for k, v in kv]
     # the roll-up as a record of its own: Pss above the per-mapping sum (sub-kB excess), keys only the roll-up has, an unknown
@@ -1148,8 +1156,11 @@ def correspond(ctx, res):
         res.rule = ("one case = one simulated process (0..60 mappings + statm + roll-up mode + 3 memory_percent calls) "
                     "driven through the real front-end methods; families: basic, repeated paths, adversarial paths, optional "
                     "lines, deleted files, single, empty (live/zombie), non-uniform keys, names ending in blanks, many "
-                    "mappings, malformed raw content, real-file-system probes, key lists that differ between mappings (stale and "
-                    "never-stale); every method call is made in a call mode drawn per observable from {plain, fresh object, inside "
+                    "mappings, malformed raw content (incl. a key line without a number right before a header, on which re.findall and the "
+                    "line-anchored reading differ; tokens that merely contain `VmFlags:`; tab / VT / FF / CR between key and number), "
+                    "real-file-system probes, key lists that differ between mappings (stale and never-stale), the roll-up as a record of its "
+                    "own (the kernel's own key list with Pss_Anon/Pss_File/Pss_Shmem, Pss with a sub-kB excess, values unrelated to the "
+                    "mappings, sparse key lists, unknown Private_* keys), names ending in non-ASCII Unicode spaces; every method call is made in a call mode drawn per observable from {plain, fresh object, inside "
                     "oneshot(), inside a WARM oneshot() block after the block-cached source was read and then overwritten, "
                     "as_dict(attrs=[name]), the object yielded by process_iter(), second call on the same object, a call on an object "
                     "(shared or process_iter()'s cached one) that answered before while the files held other content}; 35 % of the cases "
@@ -1163,19 +1174,19 @@ def correspond(ctx, res):
         validate_renderers(ctx, res)
         lines = 1
         cases = corpus(impl)
-        n = ctx.n(420, 20000)
+        n = ctx.n(420, 13000)
         for i in range(n):
             cases.append(gen_case(ctx.rng, FAMILIES[i % len(FAMILIES)], impl.flag0))
-        for i in range(ctx.n(4, 150)):
+        for i in range(ctx.n(4, 100)):
             cases.append(gen_case(ctx.rng, "many", impl.flag0))
         ex = exhaustive_cases(impl)
         cases += ex
-        rf, root = realfs_cases(ctx, impl, ctx.n(8, 100))
+        rf, root = realfs_cases(ctx, impl, ctx.n(8, 60))
         cases += rf
         CH = 1500
         for a in range(0, len(cases), CH):
             lines += run_cases(ctx, impl, cases[a:a + CH], res)
-        raws, nl = raw_cases(ctx, impl, ctx.n(120, 5000))
+        raws, nl = raw_cases(ctx, impl, ctx.n(120, 3500))
         lines += nl
         lines += run_cases(ctx, impl, raw_corpus(impl) + raws, res)
         res.exhaustive = ("%d enumerated cases: all 18 memtypes (10 valid, 8 invalid) x 6 total-memory configurations; all 16 "
